@@ -38,8 +38,12 @@ ASSUME SavedIsConfirmed == \A ns \in Seqs : \A j \in 1..Len(ns) :
           s.dc # -1 => \E i \in 1..j : ns[i].kind # "cdn" /\ ns[i].dc = s.dc /\ SavedOf(ns[i]) = s
 
 SaveCases == { [cls |-> "save", in |-> [kind |-> "save", notes |-> ns], expect |-> [saved |-> Run(ns, 1, None)]] : ns \in Seqs }
+\* a *_MIGRATE error handled concurrently while the last notification is being saved (inside the storage read of
+\* saveSession): what is saved is still what that notification confirmed
+RaceCases == { [cls |-> "race", in |-> [kind |-> "save", notes |-> ns, race |-> Len(ns)], expect |-> [saved |-> Run(ns, 1, None)]]
+               : ns \in {s \in Seqs : Len(s) <= 2} }
 \* stored data on restore: key id must be the id of the key
 Corruptions == {"none", "key_byte", "key_id_byte", "key_zero", "id_zero", "key_short", "swap_key_other"}
 RestoreCases == { [cls |-> "restore", in |-> [kind |-> "restore", how |-> h], expect |-> [ok |-> (h = "none")]] : h \in Corruptions }
-ASSUME Dump == \A c \in SaveCases \cup RestoreCases : PrintT(ToJson(c))
+ASSUME Dump == \A c \in SaveCases \cup RaceCases \cup RestoreCases : PrintT(ToJson(c))
 =============================================================================
